@@ -397,4 +397,37 @@ Section ReplyObj.
     | RBad buf' ch' => Some (BadReply buf' ch')
     | RLost => Some Lost
     end.
+
+  (* ---------- a Reply object under any sequence of setter operations ----------
+     reply.code = c / reply.message = v / reply.enhanced_status_code = v (a str, or
+     None / '' written []) / reply.enhanced_status_code = False.
+     The ESC setter stores match.groups() = (class as given, subject, detail); the getter
+     (get_esc above) ignores the stored class and takes the class of the CURRENT code at
+     read time.  A setter that raises ValueError (code_pattern / esc_pattern refuse the
+     value) raises before it assigns: the object is as it was (None below). *)
+  Inductive rop :=
+  | ROCode (c : list N)
+  | ROMsg (v : list N)
+  | ROEsc (v : list N)
+  | ROEscFalse.
+
+  Definition code_setter (r : reply) (c : list N) : option reply :=
+    if ctor_code_ok c then Some (mkReply c (r_esc r) (r_msg r)) else None.
+
+  Definition rop_apply (r : reply) (o : rop) : option reply :=
+    match o with
+    | ROCode c => code_setter r c
+    | ROMsg v => set_message_chk r v
+    | ROEsc v => esc_setter r v
+    | ROEscFalse => Some (mkReply (r_code r) EscFalse (r_msg r))
+    end.
+
+  (* the caller catches the ValueError and goes on with the object *)
+  Definition rop_step (r : reply) (o : rop) : reply :=
+    match rop_apply r o with Some r' => r' | None => r end.
+
+  (* Reply(): no code, no message, _esc None *)
+  Definition fresh_reply : reply := mkReply [] EscNone [].
+
+  Definition rops_run (ops : list rop) : reply := fold_left rop_step ops fresh_reply.
 End ReplyObj.
